@@ -263,11 +263,18 @@ func (chain *groupChain) remove(group *types.Group) bool {
 		logger.Errorf("Query nil group by hash  while removing group! Hash:%s,height:%d, preHash :%s", hash.Hex(), height, common.ToHex(group.Header.PreGroup))
 		return false
 	}
-	chain.groups.Delete(group.Id)
-	chain.groups.Put([]byte(lastGroupKey), preGroup.Id)
+	// one atomic batch: group record, last pointer, height-index entry of the removed height
+	// and count change together or not at all
+	batch := chain.groups.NewBatch()
+	batch.(db.BatchDeleter).Delete(group.Id)
+	batch.Put([]byte(lastGroupKey), preGroup.Id)
+	batch.(db.BatchDeleter).Delete(generateKey(chain.count - 1))
+	batch.Put([]byte(groupCountKey), utility.UInt64ToByte(chain.count-1))
+	if err := batch.Write(); err != nil {
+		logger.Errorf("remove group failed:%s", err.Error())
+		return false
+	}
 	chain.count--
-	chain.groups.Delete(generateKey(chain.count))
-	chain.groups.Put([]byte(groupCountKey), utility.UInt64ToByte(chain.count))
 	chain.lastGroup = preGroup
 	if err := mysql.DeleteGroup(group.Id); err != nil {
 		panic(err)
@@ -283,11 +290,16 @@ func (chain *groupChain) save(group *types.Group) error {
 		return err
 	}
 
-	chain.groups.Put(group.Id, data)
-	chain.groups.Put([]byte(lastGroupKey), group.Id)
-	chain.groups.Put(generateKey(chain.count), group.Id)
+	batch := chain.groups.NewBatch()
+	batch.Put(group.Id, data)
+	batch.Put([]byte(lastGroupKey), group.Id)
+	batch.Put(generateKey(chain.count), group.Id)
+	batch.Put([]byte(groupCountKey), utility.UInt64ToByte(chain.count+1))
+	if err = batch.Write(); err != nil {
+		logger.Errorf("save group error:%s", err.Error())
+		return err
+	}
 	chain.count++
-	chain.groups.Put([]byte(groupCountKey), utility.UInt64ToByte(chain.count))
 	chain.lastGroup = group
 	logger.Debugf("Add group on chain success! Group id:%s,group pubkey:%s", hex.EncodeToString(group.Id), hex.EncodeToString(group.PubKey))
 
